@@ -141,6 +141,7 @@ def validate(calls, ops, opts, model_exe, res, keys_known, check_every_layout=Tr
     snaps = {}            # idx -> seq (live)
     iters = {}            # id -> (view list, pos)
     opened = False
+    gc_clean = True       # the last obsolete-file removal ran while no iterator pinned an old version
     try:
         m.ask('e_init %d' % (1 if rev else 0))
         for call, opline in zip(calls, ops):
@@ -248,7 +249,7 @@ def validate(calls, ops, opts, model_exe, res, keys_known, check_every_layout=Tr
                     opened = True
                 else:
                     res.stats['reopen'] += 1
-                    snaps.clear(); iters.clear()
+                    snaps.clear(); iters.clear(); gc_clean = True
                     # recovery: one edit, new level-0 tables from the replayed logs
                     bounds = []; nums = []
                     ed = call['edits'][-1] if call['edits'] else None
@@ -316,6 +317,8 @@ def validate(calls, ops, opts, model_exe, res, keys_known, check_every_layout=Tr
             # ---- structural steps of this call
             for ed in call['edits']:
                 structural(ed)
+            if call['edits']:
+                gc_clean = not iters
 
             # ---- effects of the call itself
             if name in ('put', 'del', 'batch'):
@@ -358,7 +361,7 @@ def validate(calls, ops, opts, model_exe, res, keys_known, check_every_layout=Tr
                     if kv['L%d' % L] != '.':
                         live |= {int(t.split(':')[0]) for t in kv['L%d' % L].split(',')}
                 ondisk = {int(n.split('.')[0]) for n in (call['dir'] or []) if n.endswith('.ldb') or n.endswith('.sst')}
-                if not iters and ondisk != live:
+                if not iters and gc_clean and ondisk != live:
                     res.problem('dir-vs-live', call['idx'], ondisk=sorted(ondisk), live=sorted(live))
                 elif live - ondisk:
                     res.problem('dir-vs-live', call['idx'], ondisk=sorted(ondisk), live=sorted(live), detail='live file missing')
